@@ -326,6 +326,12 @@ func classifyPointer(v ssa.Value) (string, string) {
 					v = x.Call.Args[k]
 					continue
 				}
+				// an accessor: a function whose every return is unsafe.Add(<a field of one of its parameters>, …) stands for
+				// that field's buffer (`func (a *archetypeAccess) entityAt(i) unsafe.Pointer { return unsafe.Add(a.entityPointer, …) }`)
+				if base := offsetHelperFieldBase(sc); base != nil {
+					v = base
+					continue
+				}
 			}
 			return "column", "result of a call"
 		case *ssa.UnOp:
@@ -665,6 +671,46 @@ func knownSameClass(p *Prog, rule, name, construct string, fn *ssa.Function) (st
 }
 
 // offsetHelperBase: fn returns, on every path, unsafe.Add(p, …) for one and the same pointer parameter p: index of p, else -1.
+// offsetHelperFieldBase: every return of fn is unsafe.Add(<load of the same field of a parameter>, …); returns one such load.
+func offsetHelperFieldBase(fn *ssa.Function) ssa.Value {
+	if fn == nil || fn.Blocks == nil || fn.Signature.Results().Len() != 1 {
+		return nil
+	}
+	var base ssa.Value
+	name := ""
+	for _, b := range fn.Blocks {
+		ret, ok := b.Instrs[len(b.Instrs)-1].(*ssa.Return)
+		if !ok {
+			continue
+		}
+		c, ok := ret.Results[0].(*ssa.Call)
+		if !ok {
+			return nil
+		}
+		bi, ok := c.Call.Value.(*ssa.Builtin)
+		if !ok || bi.Name() != "Add" {
+			return nil
+		}
+		ld, ok := c.Call.Args[0].(*ssa.UnOp)
+		if !ok || ld.Op != token.MUL {
+			return nil
+		}
+		fa, ok := ld.X.(*ssa.FieldAddr)
+		if !ok {
+			return nil
+		}
+		if _, isP := fa.X.(*ssa.Parameter); !isP {
+			return nil
+		}
+		f := fieldName(fa.X.Type(), fa.Field)
+		if name != "" && name != f {
+			return nil
+		}
+		name, base = f, ld
+	}
+	return base
+}
+
 func offsetHelperBase(fn *ssa.Function) int {
 	if fn == nil || fn.Blocks == nil || fn.Signature.Results().Len() != 1 {
 		return -1
